@@ -66,6 +66,8 @@ def run(check, prog):
     load_average(check, prog)
     save_dispatch(check, prog)
     tables_exact(check, prog)
+    channel_selection(check, prog)
+    tiff_scaling(check, prog)
 
 
 def metadata_edit(check, prog):
@@ -999,3 +1001,133 @@ def tables_exact(check, prog):
             b['a'][1] == 'xarray.DataArray'
     check.require(ok, 'U3-pixel-grid', 'data_grid optics',
                   'the optics arguments are attached, each in its own slot', loc)
+
+
+def channel_selection(check, prog):
+    """U5: a colour image is loaded with exactly the requested channels, each plane
+    under the label of the channel it was read from.
+
+    The planes handed to data_grid are arr[:, :, channels] -- for every request, not
+    depending on how many channels were asked for -- and the channel labels are
+    derived element by element from the same `channels`, in the same order."""
+    from hpstatic.logic import resolve
+    q = IO + 'load_image'
+    fd = prog.func(q)
+    loc = prog.loc(q, fd)
+    it = Interp(prog, max_depth=1, opaque=[MD + 'data_grid', 'holopy.core.utils.ensure_array',
+                                           MD + 'to_vector'])
+    it.analyze(q)
+    dg = [c for c in it.calls if c['name'] == MD + 'data_grid']
+    if len(dg) != 1 or not dg[0]['args']:
+        check.bad('U5-channel-selection', 'load_image', 'no single data_grid(...) call', loc)
+        return
+    ch = sym('channel')
+    raw = [x for x in subterms(dg[0]['args'][0]) if x[0] == 'call' and
+           isinstance(x[1], tuple) and x[1][0] == 'attr' and x[1][2] == 'astype']
+    if not raw:
+        check.bad('U5-channel-selection', 'load_image', 'pixel array not found', loc)
+        return
+    arr = min(raw, key=lambda t: len(show(t)))
+    is_none = intern(('cmp', 'is', ch, NONE))
+    grey = intern(('cmp', '==', ('attr', arr, 'ndim'), num(2)))
+
+    def colour(t):
+        if t == is_none or t == grey:
+            return False
+        return None
+    planes = resolve(dg[0]['args'][0], colour)
+    while planes[0] == 'call' and isinstance(planes[1], tuple) and planes[1][0] == 'attr' \
+            and planes[1][2] == 'squeeze' and not planes[2]:
+        planes = planes[1][1]
+    ok = planes[0] == 'idx' and planes[1] == arr and planes[2][0] == 'tuple' and \
+        len(planes[2][1]) == 3 and all(
+            k == ('slice', NONE, NONE, NONE) for k in planes[2][1][:2])
+    CH = planes[2][1][2] if ok else None
+    ok = ok and any(x == ch for x in subterms(CH)) and \
+        not any(x[0] == 'ite' and x[1] != ('cmp', '==', ch, ('const', 'all'))
+                for x in subterms(planes))
+    check.require(ok, 'U5-channel-selection', 'load_image planes',
+                  'the image handed on is arr[:, :, channels] for every request', loc,
+                  fail_detail='for a colour image data_grid receives %s' % show(planes)[:200])
+    if not ok:
+        return
+    ed = resolve(dict(dg[0]['kwargs']).get('extra_dims', NONE), colour)
+    many = [x[1] for x in subterms(ed) if x[0] == 'ite']
+    labels = []
+    for x in subterms(ed):
+        if x[0] == 'dict' and len(x[1]) == 1 and x[1][0][0] == ('const', 'illumination'):
+            labels.append(x[1][0][1])
+    good = bool(labels)
+    for lab in labels:
+        for leaf in _leaves(lab):
+            if leaf == CH:
+                continue
+            if leaf[0] == 'comp' and leaf[1] == 'list' and len(leaf[3]) == 1 and \
+                    leaf[3][0][1] == CH and not leaf[3][0][2] and \
+                    leaf[2][0] == 'idx' and leaf[2][2] == leaf[3][0][0] and \
+                    leaf[2][1][0] == 'list' and all(y[0] == 'const' for y in leaf[2][1][1]):
+                continue
+            good = False
+    check.require(good, 'U5-channel-selection', 'load_image labels',
+                  'the channel labels are computed element by element from the '
+                  'requested channels, in the same order as the planes', loc,
+                  fail_detail='labels: %s' % [show(l)[:120] for l in labels])
+
+
+def _leaves(t):
+    return _leaves(t[2]) + _leaves(t[3]) if t[0] == 'ite' else [t]
+
+
+def tiff_scaling(check, prog):
+    """U6: a scaled TIFF export is undone on import.
+
+    display_image maps the stored range [s0, s1] affinely onto [0, 1]; the writer
+    then multiplies by a depth-dependent grey-level count the file does not record.
+    The only inverse that does not need that count maps [min, max] of what was read
+    back onto [s0, s1]."""
+    q = IO + 'load'
+    fd = prog.func(q)
+    loc = prog.loc(q, fd)
+    it = Interp(prog, max_depth=1, opaque=[IO + 'load_image', IO + 'unpack_attrs'])
+    res = it.analyze(q)
+    c0 = Canon()
+    found = []
+    for o in res.returns:
+        for x in subterms(o.value):
+            if x[0] == 'ite' and x[1][0] == 'cmp' and x[1][1] == 'in' and \
+                    x[1][2] == ('const', '_image_scaling'):
+                found.append((x[2], x[3], x[1][3]))
+    ok = bool(found)
+    detail = 'no restore step conditional on the stored _image_scaling'
+    for yes, no, meta in found:
+        sc = [x for x in subterms(yes) if x[0] == 'call' and x[1] == 'yaml.safe_load'
+              and x[2] and x[2][0] == ('idx', meta, ('const', '_image_scaling'))]
+        if not sc:
+            ok, detail = False, 'the stored scaling is not read'
+            break
+        # strip the attrs store layered on top
+        val, base = yes, no
+        while val[0] == 'upd' and val[2] == 'attr':
+            val = val[1]
+        while base[0] == 'upd' and base[2] == 'attr':
+            base = base[1]
+        env = {'im': base, 's0': intern(('idx', sc[0], num(0))),
+               's1': intern(('idx', sc[0], num(1)))}
+        want = expr_term(prog, '(im - im.min()) * (s1 - s0) / (im.max() - im.min()) + s0', env)
+        if not c0.equal(val, want):
+            ok = False
+            detail = 'restored image = %s' % c0.show(val)[:200]
+    check.require(ok, 'U6-tiff-scaling', 'load (TIFF with metadata)',
+                  'restores smin + (smax - smin) * (im - min) / (max - min): the inverse '
+                  'of the export stretch whatever the bit depth', loc, fail_detail=detail)
+    # the forward map
+    q2 = 'holopy.core.io.vis.display_image'
+    if prog.has_func(q2):
+        fd2 = prog.func(q2)
+        it2 = Interp(prog, max_depth=1)
+        it2.analyze(q2)
+        st = [e for e in it2.effects if e['kind'] == 'setitem' and
+              e['key'] == ('const', '_image_scaling')]
+        check.require(len(st) == 1, 'U6-tiff-scaling', 'display_image',
+                      'records the scaling it applied under _image_scaling',
+                      prog.loc(q2, fd2))
